@@ -4,6 +4,9 @@
 From Coq Require Import ZArith List.
 From Coq Require Import String.
 From Verif Require Import Base.Harness Model.Escrow Model.Ledger Proofs.EscrowProofs Proofs.LedgerProofs.
+(* Model.Slash shares names with Model.Ledger (snap, hist_classes, ...): its names are written qualified *)
+From Verif Require Model.Slash.
+From Verif Require Import Proofs.StakeBackingProofs.
 Import ListNotations.
 Open Scope Z_scope.
 
@@ -56,3 +59,130 @@ Theorem C05_check_sound before op signer res params after decs :
   pool_slack before <= pool_slack after <= pool_slack before + 64.
 Proof. exact (c05_step_sound before op signer res params after decs). Qed.
 Print Assumptions C05_check_sound.
+
+(* ================================================================================================================ *)
+(* the same property on the faithful model of the code that takes stake for a dispute (Model/Slash.v: validators,
+   delegations, unbonding delegations, the two pools and the dispute escrow; EscrowReporterStake and everything below
+   it; propose / add fee / begin block).  That model is tied to the Go code by C11's correspondence check.
+     bonded_ledger st     = tokens of the validators with status 3
+     notbonded_ledger st  = tokens of the validators with status 1 or 2 + all entries of all unbonding delegations
+     backed st            = bonded_ledger st <= s_bonded st /\ notbonded_ledger st <= s_notbonded st
+     bonded_gap, notbonded_gap = pool - ledger;  slack = their sum
+     wf_stk st            = no negative validator tokens, no negative unbonding entry (needed by no backing theorem)
+   The theorems hold for every repair variant of the model: where the code as found knows no pool (F34) the
+   transaction fails and produces no state. *)
+
+(* EscrowReporterStake keeps the invariant *)
+Theorem C05_stake_escrow_backed vr reds st origins power amt st' rec :
+  Slash.escrow vr reds st origins power amt = Some (st', rec) -> backed st -> backed st'.
+Proof. exact (escrow_backed vr reds st origins power amt st' rec). Qed.
+Print Assumptions C05_stake_escrow_backed.
+
+(* each pool loses exactly what its ledger loses, and no pool grows *)
+Theorem C05_stake_escrow_keeps_gaps vr reds st origins power amt st' rec :
+  Slash.escrow vr reds st origins power amt = Some (st', rec) ->
+  Slash.s_bonded st - bonded_ledger st = Slash.s_bonded st' - bonded_ledger st' /\
+  Slash.s_notbonded st - notbonded_ledger st = Slash.s_notbonded st' - notbonded_ledger st' /\
+  Slash.s_bonded st' <= Slash.s_bonded st /\ Slash.s_notbonded st' <= Slash.s_notbonded st.
+Proof. exact (escrow_keeps_gaps vr reds st origins power amt st' rec). Qed.
+Print Assumptions C05_stake_escrow_keeps_gaps.
+
+Theorem C05_stake_escrow_slack vr reds st origins power amt st' rec :
+  Slash.escrow vr reds st origins power amt = Some (st', rec) -> slack st' = slack st.
+Proof. exact (escrow_slack vr reds st origins power amt st' rec). Qed.
+Print Assumptions C05_stake_escrow_slack.
+
+(* what the two ledgers lose is what arrives in the dispute escrow *)
+Theorem C05_stake_escrow_ledger_to_escrow vr reds st origins power amt st' rec :
+  Slash.escrow vr reds st origins power amt = Some (st', rec) ->
+  (bonded_ledger st - bonded_ledger st') + (notbonded_ledger st - notbonded_ledger st') = Slash.s_escrow st' - Slash.s_escrow st /\
+  0 <= bonded_ledger st - bonded_ledger st' /\ 0 <= notbonded_ledger st - notbonded_ledger st'.
+Proof. exact (escrow_ledger_to_escrow vr reds st origins power amt st' rec). Qed.
+Print Assumptions C05_stake_escrow_ledger_to_escrow.
+
+Theorem C05_stake_escrow_wf vr reds st origins power amt st' rec :
+  Slash.escrow vr reds st origins power amt = Some (st', rec) -> wf_stk st -> wf_stk st'.
+Proof. exact (escrow_wf vr reds st origins power amt st' rec). Qed.
+Print Assumptions C05_stake_escrow_wf.
+
+Theorem C05_stake_pools_nonneg st : wf_stk st -> backed st -> 0 <= Slash.s_bonded st /\ 0 <= Slash.s_notbonded st.
+Proof. exact (backed_wf_pools_nonneg st). Qed.
+Print Assumptions C05_stake_pools_nonneg.
+
+(* the building blocks: deductFromdelegation (Keeper.Unbond + MoveTokensFromValidator), deductUnbondingDelegation
+   for the unbonding delegation the store holds under that key (what undelegate passes), undelegate *)
+Theorem C05_stake_deduct_from_delegation vr st del vl dt st' rem :
+  Slash.deduct_from_delegation vr st del vl dt = Some (st', rem) ->
+  (bonded_gap st' = bonded_gap st /\ notbonded_gap st' = notbonded_gap st /\
+   Slash.s_bonded st' <= Slash.s_bonded st /\ Slash.s_notbonded st' <= Slash.s_notbonded st) /\
+  (wf_stk st -> wf_stk st').
+Proof. exact (deduct_from_delegation_good vr st del vl dt st' rem). Qed.
+Print Assumptions C05_stake_deduct_from_delegation.
+
+Theorem C05_stake_deduct_unbonding vr st u t st' tl :
+  Slash.find_ubd (Slash.u_del u) (Slash.u_val u) (Slash.s_ubds st) = Some u ->
+  Slash.deduct_unbonding vr st u t = Some (st', tl) ->
+  (bonded_gap st' = bonded_gap st /\ notbonded_gap st' = notbonded_gap st /\
+   Slash.s_bonded st' <= Slash.s_bonded st /\ Slash.s_notbonded st' <= Slash.s_notbonded st) /\
+  (wf_stk st -> wf_stk st').
+Proof. exact (deduct_unbonding_good vr st u t st' tl). Qed.
+Print Assumptions C05_stake_deduct_unbonding.
+
+(* without that hypothesis: an unbonding delegation that is not in the store is paid out of the pool *)
+Theorem C05_stake_deduct_unbonding_foreign_refuted :
+  exists st u t st' tl, backed st /\ wf_stk st /\ Slash.deduct_unbonding Slash.current st u t = Some (st', tl) /\ ~ backed st'.
+Proof. exact deduct_unbonding_foreign_refuted. Qed.
+Print Assumptions C05_stake_deduct_unbonding_foreign_refuted.
+
+Theorem C05_stake_undelegate vr st del vl dt st' rem :
+  Slash.undelegate vr st del vl dt = Some (st', rem) ->
+  (bonded_gap st' = bonded_gap st /\ notbonded_gap st' = notbonded_gap st /\
+   Slash.s_bonded st' <= Slash.s_bonded st /\ Slash.s_notbonded st' <= Slash.s_notbonded st) /\
+  (wf_stk st -> wf_stk st').
+Proof. exact (undelegate_good vr st del vl dt st' rem). Qed.
+Print Assumptions C05_stake_undelegate.
+
+(* dispute histories.  A fee paid from stake leaves the bonded pool while no validator of the slice loses tokens: the
+   payer's stake sits with a validator outside the slice and w_bond is its ledger (outside_bond w = its sum).
+     world_backed w = bonded_ledger (w_stk w) + outside_bond w <= s_bonded (w_stk w) /\
+                      notbonded_ledger (w_stk w) <= s_notbonded (w_stk w)
+   Along every history both gaps are constant and no pool grows *)
+Theorem C05_stake_history_keeps_gaps vr e ops w :
+  let w' := Slash.run vr e w ops in
+  Slash.s_bonded (Slash.w_stk w') - bonded_ledger (Slash.w_stk w') - outside_bond w' =
+    Slash.s_bonded (Slash.w_stk w) - bonded_ledger (Slash.w_stk w) - outside_bond w /\
+  Slash.s_notbonded (Slash.w_stk w') - notbonded_ledger (Slash.w_stk w') =
+    Slash.s_notbonded (Slash.w_stk w) - notbonded_ledger (Slash.w_stk w) /\
+  Slash.s_bonded (Slash.w_stk w') <= Slash.s_bonded (Slash.w_stk w) /\
+  Slash.s_notbonded (Slash.w_stk w') <= Slash.s_notbonded (Slash.w_stk w).
+Proof. exact (run_keeps_gaps vr e ops w). Qed.
+Print Assumptions C05_stake_history_keeps_gaps.
+
+Theorem C05_stake_history_world_backed vr e ops w : world_backed w -> world_backed (Slash.run vr e w ops).
+Proof. exact (run_world_backed vr e ops w). Qed.
+Print Assumptions C05_stake_history_world_backed.
+
+(* in every reachable world the pools back the ledgers of the slice *)
+Theorem C05_stake_history_backed vr e ops w :
+  world_backed w -> bonds_nonneg w -> backed (Slash.w_stk (Slash.run vr e w ops)).
+Proof. exact (run_backed vr e ops w). Qed.
+Print Assumptions C05_stake_history_backed.
+
+Theorem C05_stake_history_wf vr e ops w : wf_stk (Slash.w_stk w) -> wf_stk (Slash.w_stk (Slash.run vr e w ops)).
+Proof. exact (run_wf vr e ops w). Qed.
+Print Assumptions C05_stake_history_wf.
+
+(* PayDisputeFee alone, whatever the sign of the amount: no gap shrinks *)
+Theorem C05_stake_pay_gaps w sender amount from_bond w1 :
+  Slash.pay w sender amount from_bond = Some w1 ->
+  world_bonded_gap w <= world_bonded_gap w1 /\ notbonded_gap (Slash.w_stk w1) = notbonded_gap (Slash.w_stk w).
+Proof. exact (pay_gaps_le w sender amount from_bond w1). Qed.
+Print Assumptions C05_stake_pay_gaps.
+
+(* with backed (w_stk w) alone as the hypothesis the statement is false in the model: the bonded pool has to contain
+   the payer's stake outside the slice as well *)
+Theorem C05_stake_history_without_outside_bond_refuted :
+  exists e w ops, backed (Slash.w_stk w) /\ wf_stk (Slash.w_stk w) /\ bonds_nonneg w /\
+                  ~ backed (Slash.w_stk (Slash.run Slash.current e w ops)).
+Proof. exact run_backed_without_outside_bond_refuted. Qed.
+Print Assumptions C05_stake_history_without_outside_bond_refuted.
